@@ -96,7 +96,11 @@ Fixpoint cread (fuel : nat) (want : Z) (c : creader) (racc : list N) : list N * 
         let '(ok1, r1) := if cr_not_first c then discard 4 2 (cr_inner c) else (true, cr_inner c) in
         if negb ok1 then (racc, REOF, {| cr_inner := r1; cr_remain := cr_remain c; cr_not_first := true |}) else
         match scan_hex 20 r1 None with
-        | (None, r2) => (racc, REOF, {| cr_inner := r2; cr_remain := cr_remain c; cr_not_first := true |})
+        | (None, r2) =>
+            (* fmt.Fscanf: io.EOF only when the input ends before the first byte of the header; a byte
+               that is not a hex digit, a missing ';' or an end inside the number are errors *)
+            (racc, match rd_buf r1 with [] => REOF | _ => RErrOther end,
+             {| cr_inner := r2; cr_remain := cr_remain c; cr_not_first := true |})
         | (Some sz, r2) =>
             let '(ok3, r3) := discard 100 header_skip r2 in
             let c' := {| cr_inner := r3; cr_remain := sz; cr_not_first := true |} in
@@ -142,11 +146,14 @@ Fixpoint drain (fuel : nat) (bufsz : Z) (c : creader) (racc : list N) : list N *
 (* mem / bolt: util.go ReadAll(reader, size) *)
 Definition decode_readall (r : reader) (size : Z) : decode_result :=
   let '(rgot, e, c) := read_full (read_fuel r) size (cnew r) [] in
-  if blen rgot <? size then DShort (rev_append rgot []) else
+  if blen rgot <? size then (match e with RErrOther => DError | _ => DShort (rev_append rgot []) end) else
   let '(rextra, e') := drain (read_fuel r) 512 c [] in
-  match rextra with
-  | [] => DOk (rev_append rgot [])
-  | _ => DLong
+  match e' with
+  | RErrOther => DError          (* ioutil.ReadAll of the rest fails: the upload is refused *)
+  | _ => match rextra with
+         | [] => DOk (rev_append rgot [])
+         | _ => DLong
+         end
   end.
 
 (* fs backends: io.Copy with a buffer until EOF *)
